@@ -428,8 +428,7 @@ def _has_cycle(F, nodes):
 
 
 def run(P, rep, tier):
-    if tier == "thorough":
-        common.rule_X4(P, rep)
+    common.rule_X4(P, rep)
     common.run_shared(P, rep, which=("X2", "X3"))
     rule_R1(P, rep)
     rule_R2(P, rep)
